@@ -64,6 +64,19 @@ struct Impl {
     commit_lock: parking_lot::RwLock<()>,
 }
 
+impl Drop for Impl {
+    fn drop(&mut self) {
+        // Batches are committed with `durability(None)`: their journal
+        // records can still sit in fjall's in-process write buffer. fjall
+        // writes that buffer out when its journal object is dropped, which can
+        // happen after `Database::drop` has returned (a worker thread that is
+        // still exiting keeps the journal alive). Hand the buffered tail to
+        // the operating system now, so that the directory can be opened again
+        // as soon as the last handle is gone.
+        let _ = self.db.persist(fjall::PersistMode::Buffer);
+    }
+}
+
 impl std::fmt::Debug for Impl {
     fn fmt(&self, f: &mut std::fmt::Formatter<'_>) -> std::fmt::Result {
         f.debug_struct("Impl")
